@@ -113,3 +113,105 @@ func c22FailureStatus(v ssa.Value, depth int) (bool, string) {
 
 	return false, "a status computed as " + c40Describe(v)
 }
+
+// valueInvolvesFieldLoad: v is computed from a load of a struct field named
+// field (through phis, conversions, slices, append and any other call that
+// receives such a value as an argument).
+func valueInvolvesFieldLoad(v ssa.Value, field string, seen map[ssa.Value]bool) bool {
+	if v == nil || seen[v] {
+		return false
+	}
+
+	seen[v] = true
+
+	switch x := v.(type) {
+	case *ssa.UnOp:
+		if fa, ok := x.X.(*ssa.FieldAddr); ok && fieldName(fa.X.Type(), fa.Field) == field {
+			return true
+		}
+
+		return valueInvolvesFieldLoad(x.X, field, seen)
+	case *ssa.Phi:
+		for _, e := range x.Edges {
+			if valueInvolvesFieldLoad(e, field, seen) {
+				return true
+			}
+		}
+	case *ssa.Call:
+		for _, a := range x.Call.Args {
+			if valueInvolvesFieldLoad(a, field, seen) {
+				return true
+			}
+		}
+	case *ssa.Slice:
+		return valueInvolvesFieldLoad(x.X, field, seen)
+	case *ssa.ChangeType:
+		return valueInvolvesFieldLoad(x.X, field, seen)
+	case *ssa.Convert:
+		return valueInvolvesFieldLoad(x.X, field, seen)
+	case *ssa.MakeInterface:
+		return valueInvolvesFieldLoad(x.X, field, seen)
+	case *ssa.Extract:
+		return valueInvolvesFieldLoad(x.Tuple, field, seen)
+	case *ssa.Alloc:
+		// a local: what was stored into it
+		for _, ref := range *x.Referrers() {
+			if st, ok := ref.(*ssa.Store); ok && st.Addr == ssa.Value(x) && valueInvolvesFieldLoad(st.Val, field, seen) {
+				return true
+			}
+		}
+	}
+
+	return false
+}
+
+// R-C22-8: the verification keys in force are the ones the provider publishes.
+// refreshJWKS replaces the cached key set; if the new set is computed from the
+// old one, a key the provider has withdrawn stays trusted for the life of the
+// process and a token signed with it keeps verifying.
+func c22KeySetReplaced(w *World, r *Report) {
+	r.Rule("R-C22-8", "refreshJWKS replaces the cached key set with the fetched one: the value stored into the cache's keys is not computed from the keys cached before", 1)
+
+	op := w.pkg("internal/server/oauth")
+	if op == nil {
+		return
+	}
+
+	fn := w.ssaFunc(op, "refreshJWKS")
+	if fn == nil {
+		r.Anchor("R-C22-8", "oauth.refreshJWKS")
+
+		return
+	}
+
+	n := 0
+
+	allInstrs(fn, func(in ssa.Instruction) {
+		st, ok := in.(*ssa.Store)
+		if !ok {
+			return
+		}
+
+		fa, ok := st.Addr.(*ssa.FieldAddr)
+		if !ok || fieldName(fa.X.Type(), fa.Field) != "keys" {
+			return
+		}
+
+		n++
+
+		key := "oauth.refreshJWKS|key set replaced"
+		if n > 1 {
+			key += " #" + sprintInt(n)
+		}
+
+		if valueInvolvesFieldLoad(st.Val, "keys", map[ssa.Value]bool{}) {
+			r.Violate("R-C22-8", key, w.pos(st.Pos()), "the key set cached after a refresh is computed from the set cached before it: a signing key the provider no longer publishes stays trusted, and a token signed with the withdrawn key is accepted")
+		} else {
+			r.Discharge("R-C22-8", key, w.pos(st.Pos()), "stored value does not involve the previous key set")
+		}
+	})
+
+	if n == 0 {
+		r.Anchor("R-C22-8", "the store of the key set in oauth.refreshJWKS")
+	}
+}
